@@ -34,6 +34,9 @@ MANIFEST = dict(
     design='6/C10')
 
 RT = 1e-9          # float noise; class-edge effects are 1e-3 .. 1e-1 and are never absorbed by this
+RT_SOLVER = 5e-5   # P_RAJ batch vs single: the Seeger-Beste look-up tables are filled by an iterative solver (rtol 1e-4 .. 1e-5 on the stress,
+                   # the library's own test compares them with rtol=1e-3); solving for all points at once ends on slightly different iterates
+                   # (observed 1.3e-6 in the lifetime).  Class-edge (>= 1e-3) and shared-class-maximum (1e-3 .. 5e-2) effects stay visible.
 EDGE = 1e-7        # a load (range) closer than this (in units of one look-up class) to a class edge: float rounding decides the class
 
 W_BATCH = 'batch result of a point differs from its single assessment'
@@ -196,7 +199,7 @@ def judge(item, sums):
     if k == 'batch':
         b, i = sums[1], item['i']
         for m in ('RAM_life', 'RAJ_life', 'RAM_times', 'RAJ_times', 'RAM_N_10', 'RAM_N_50', 'RAM_N_90', 'RAJ_N_10', 'RAJ_N_50', 'RAJ_N_90'):
-            if m in a and m in b and not close(a[m][0], b[m][i]):
+            if m in a and m in b and not close(a[m][0], b[m][i], RT_SOLVER if m.startswith('RAJ') else RT):
                 out.append((W_BATCH, m, {'single': a[m][0], 'batch': b[m][i]}))
         for m in ('RAM_inf', 'RAJ_inf'):
             if a[m][0] != b[m][i]:
